@@ -353,6 +353,9 @@ func runCliScenario(sc cliScenario, run int, res *hx.Result) []cliEvent {
 			if st.K%2 == 1 {
 				tag = r.lastTag // repeated tag, if already answered
 			}
+			if st.K%3 == 2 {
+				tag = p9p.NOTAG // the reserved tag, which no request ever carries
+			}
 			heldNow := false
 			for i, t := range r.held {
 				if t == tag && !r.answered[i] {
@@ -793,7 +796,7 @@ func hostileRversion(res *hx.Result) int {
 func stalledPeerThenFault(res *hx.Result) int {
 	n := 0
 	bg := context.Background()
-	for _, fk := range []string{"close", "sessionctx", "close", "sessionctx"} {
+	for _, fk := range []string{"close", "sessionctx", "own-contexts", "close", "sessionctx", "own-contexts"} {
 		n++
 		p := newCliPeer(p9p.DefaultMSize, "9P2000", 1)
 		sctx, scancel := context.WithCancel(bg)
@@ -812,25 +815,53 @@ func stalledPeerThenFault(res *hx.Result) int {
 		var wg sync.WaitGroup
 		var mu sync.Mutex
 		returned := 0
+		callCtx, cancelCalls := context.WithCancel(bg)
+		if fk != "own-contexts" {
+			callCtx = bg
+		}
 		for i := 0; i < N; i++ {
 			wg.Add(1)
 			go func(i int) {
 				defer wg.Done()
-				sess.Stat(bg, p9p.Fid(100+i)) // no deadline of its own
+				sess.Stat(callCtx, p9p.Fid(100+i)) // no deadline of its own
 				mu.Lock()
 				returned++
 				mu.Unlock()
 			}(i)
 		}
 		time.Sleep(30 * time.Millisecond)
+		done := make(chan struct{})
+		go func() { wg.Wait(); close(done) }()
+		if fk == "own-contexts" {
+			// the callers give up (their own contexts end) while the peer is still not reading: each call returns
+			// promptly, whatever the handle loop is blocked in
+			cancelCalls()
+			select {
+			case <-done:
+			case <-time.After(3 * time.Second):
+				mu.Lock()
+				k := returned
+				mu.Unlock()
+				gs := hx.GoroutinesWith(hx.Dump(), "p9p.(*transport).send")
+				d := fmt.Sprintf("%d calls were pending while the peer had stopped reading; their callers' contexts were cancelled; after 3 s only %d have returned", N, k)
+				if len(gs) > 0 {
+					d += "\n" + hx.Trunc(gs[0], 1200)
+				}
+				res.Violate("C12", "cancelled-calls-hang-while-peer-stalled", d, map[string]interface{}{"engine": "client", "stalled_peer_fault": fk})
+			}
+			close(hold)
+			scancel()
+			p.cli.Close()
+			p.srv.Close()
+			<-done
+			continue
+		}
 		if fk == "close" {
 			p.cli.Close()
 		} else {
 			scancel()
 		}
 		close(hold) // the peer reads on (it sees EOF or stray requests)
-		done := make(chan struct{})
-		go func() { wg.Wait(); close(done) }()
 		select {
 		case <-done:
 		case <-time.After(5 * time.Second):
@@ -844,6 +875,7 @@ func stalledPeerThenFault(res *hx.Result) int {
 			}
 			res.Violate("C12", "queued-calls-hang-after-fault:"+fk, d, map[string]interface{}{"engine": "client", "stalled_peer_fault": fk})
 		}
+		cancelCalls()
 		scancel()
 		p.cli.Close()
 		p.srv.Close()
